@@ -116,11 +116,16 @@ def _deps_closure(names):
 
 
 def _stale(names):
+    """a compiled theory file is stale when it is older than its own source or the
+    source of anything it (transitively) depends on"""
     for n in names:
-        v = os.path.join(COQ_THEORY, n + '.v')
-        vo = v + 'o'
-        if not os.path.exists(vo) or os.path.getmtime(vo) < os.path.getmtime(v):
+        vo = os.path.join(COQ_THEORY, n + '.vo')
+        if not os.path.exists(vo):
             return True
+        t = os.path.getmtime(vo)
+        for d in _deps_closure([n]):
+            if os.path.getmtime(os.path.join(COQ_THEORY, d + '.v')) > t:
+                return True
     return False
 
 
